@@ -2,6 +2,8 @@ import H4.DD
 import H4.DDConfig
 import H4.Driver.Util
 import H4.Gen.Fn.Bitvect2
+import H4.Gen.Fn.Hfiledd
+import H4.Limits
 /-! Line-protocol glue for engine `dd` (harness/e_dd.c). State = the open file (or none), and the bit vector of the unit-level
     `bv*` ops (bitvect.c: answered by the hand model `H4.Bitvect` and cross-run with the functions translated from the C text). -/
 namespace H4.Driver
@@ -134,8 +136,100 @@ def null (model : String) : String :=
   tag model (s1.ub || s2.ub || s3.ub) (s1.oof || s2.oof || s3.oof) s!"{s1.ret} {s2.ret} {s3.ret}"
 
 end H4.Driver.GenBV
+/-! unit level 2 of engine `dd`: `Hnewref` / `Htagnewref` and the DD-block codec loops of `HTPsync` / `HTPstart` as TRANSLATED from
+    `hdf/src/hfiledd.c` (`H4.Gen.Fn.Hfiledd`, regenerated on every run) are executed on the inputs of the `uref` / `ublk` lines and on the model
+    state of the `newref` / `tagnewref` lines; a difference to the hand model's answer (or `ub` / `oof`) is appended as ` GEN=…`.
+    The callee tables the translated functions take: `HTIfind_dd_ret[r]` = FAIL (-1) iff no live descriptor has ref `r`;
+    `HTIregister_tag_ref_ret` = all SUCCEED (the harness prints `ublk dec` only for files it could open). -/
+namespace H4.Driver.GenRef
+open H4.DD H4.Bitvect H4.Gen.Fn.Hfiledd H4.Driver.GenBV
+
+/-- the table of `HTIfind_dd(…, DFTAG_WILDCARD, r, …)` answers for the refs in use `refs` -/
+def findTable (refs : List Nat) : List Int :=
+  let a := refs.foldl (fun (a : Array Int) r => if r < 65536 then a.set! r 0 else a) (Array.replicate 65536 (-1))
+  a.toList
+
+/-- `Hnewref` on `maxref` and the refs in use; `model` = "<ret> <maxref after>" -/
+def newref (maxref : Nat) (refs : List Nat) (model : String) : String :=
+  let s := Hnewref 65535 0 false 1 maxref (if maxref < 65535 then [] else findTable refs)
+  tag model s.ub s.oof s!"{s.ret} {s.file_rec_maxref}"
+
+/-- the vector `HTIregister_tag_ref` builds for a tag: `bv_new(-1)`, bit 0, then the refs in registration order -/
+def bvOf (refs : List Nat) : BV := refs.foldl (fun b r => b.set r true) (BV.new.set 0 true)
+
+/-- `Htagnewref` on the node of the tag (`none`: `tbbtdfind` finds nothing); `model` = "<ret>" -/
+def tagnewref (tg : Nat) (bv : Option BV) (model : String) : String :=
+  match bv with
+  | none =>
+    let s := Htagnewref 0 0 tg false 1 true false false 0 0 [] 0
+    tag model s.ub s.oof s!"{s.ret}"
+  | some b =>
+    let s := Htagnewref (b.arraySize + 1) 0 tg false 1 false false false b.bitsUsed b.lastZero (cells b.buf) b.arraySize
+    tag model (s.ub || decide (s.base_tag ≠ (baseTag tg : Nat))) s.oof s!"{s.ret}"
+
+def parseDDs (s : String) : Option (List DD) :=
+  if s == "-" then some [] else
+  (s.splitOn ",").mapM fun e => match e.splitOn "." with
+    | [t, r, o, l] => match t.toNat?, r.toNat?, o.toInt?, l.toInt? with
+      | some t, some r, some o, some l => some ⟨t, r, o, l⟩
+      | _, _, _, _ => none
+    | _ => none
+
+def showDDs (l : List DD) : String :=
+  if l.isEmpty then "-" else ",".intercalate (l.map fun d => s!"{d.tag}.{d.ref}.{d.off}.{d.len}")
+
+def hexOf (l : List Int) : String :=
+  if l.isEmpty then "-" else
+  String.join (l.map fun c => if 0 ≤ c ∧ c < 256 then String.ofList [hexDigit (c.toNat / 16), hexDigit (c.toNat % 16)] else s!"[{c}]")
+
+/-- the bytes of a block: the model's `encodeDD`s against the translated loop of `HTPsync` (what it hands to `HP_write`) -/
+def enc (ds : List DD) : String :=
+  let model := hexOf ((ds.flatMap encodeDD).map Int.ofNat)
+  let n := ds.length
+  let s := HTPsync_ddlist n (ds.map fun d => (d.tag : Int)) (ds.map fun d => (d.ref : Int)) (ds.map (·.off)) (ds.map (·.len))
+    (List.replicate (12 * n) 170) n 0 []
+  tag model s.ub (s.oof || s.gto) (hexOf s.io_out)
+
+/-- the records of a block: the model's `decodeDDs` (and the `maxref` fold of `HTPstart`) against the translated loop of `HTPstart` -/
+def dec (mr : Int) (B : List Nat) : String :=
+  let n := B.length / 12
+  let ds := decodeDDs n B
+  let m := ds.foldl (fun m d => if m < d.ref then d.ref else m) 0
+  let model := s!"{showDDs ds} {if mr < 0 then (-1 : Int) else (m : Int)}"
+  let junk := List.replicate n (170 : Int)
+  let s := HTPstart_ddlist n junk junk junk junk 0 (List.replicate (12 * n) 170) n 0 0 (B.map Int.ofNat) 0 (List.replicate n 0)
+  let got : List DD := (List.range n).map fun k =>
+    ⟨(s.ddcurr_ddlist_tag.getD k 0).toNat, (s.ddcurr_ddlist_ref.getD k 0).toNat, s.ddcurr_ddlist_offset.getD k 0, s.ddcurr_ddlist_length.getD k 0⟩
+  tag model s.ub (s.oof || s.gto) s!"{showDDs got} {if mr < 0 then (-1 : Int) else s.file_rec_maxref}"
+
+end H4.Driver.GenRef
 namespace H4.Driver
 open H4.DD H4.Gen.Hdf H4.Driver.DDEng
+
+/-- the unit-level ops of engine `dd` on `Hnewref` / `Htagnewref` / the DD-block codec (hfiledd.c), independent of the open file:
+    `uref newref maxref refs` · `uref tagnewref tag refs` · `ublk enc dds` · `ublk dec mr hex` -/
+def stepRef (args : List String) : Option String :=
+  match args with
+  | ["uref", "newref", mr, refs] => match mr.toNat?, natList refs with
+    | some mr, some refs =>
+      let a := refs.foldl (fun (a : Array Bool) r => if r < 65536 then a.set! r true else a) (Array.replicate 65536 false)
+      let x := H4.Limits.newref mr (fun r => a.getD r false)
+      some (GenRef.newref mr refs s!"{x.1} {x.2}")
+    | _, _ => some "bad-op"
+  | ["uref", "tagnewref", tg, refs] => match tg.toNat?, natList refs with
+    | some tg, some refs =>
+      if refs.isEmpty then some (GenRef.tagnewref tg none "1")
+      else
+        let b := GenRef.bvOf refs
+        some (GenRef.tagnewref tg (some b) (toString (tagnewrefValue Cfg.fixed b.findNextZero.1)))
+    | _, _ => some "bad-op"
+  | ["ublk", "enc", dds] => match GenRef.parseDDs dds with
+    | some ds => some (GenRef.enc ds)
+    | none => some "bad-op"
+  | ["ublk", "dec", mr, hex] => match mr.toInt?, parseHex hex with
+    | some mr, some bs => some (GenRef.dec mr (bs.map (·.toNat)))
+    | _, _ => some "bad-op"
+  | _ => none
 
 /-- the unit-level ops of engine `dd` on the bit vector (bitvect.c): `bvnew` · `bvset bit value` · `bvfill a e value` · `bvget bit` · `bvfind` · `bvnull` -/
 def stepBV (st : DDState) (args : List String) : Option (DDState × String) :=
@@ -166,6 +260,9 @@ def stepBV (st : DDState) (args : List String) : Option (DDState × String) :=
   | _, _ => none
 
 def stepDD (st : DDState) (args : List String) : DDState × String :=
+  match stepRef args with
+  | some r => (st, r)
+  | none =>
   match stepBV st args with
   | some r => r
   | none =>
@@ -236,9 +333,16 @@ def stepDD (st : DDState) (args : List String) : DDState × String :=
     | some t, some r => let x := hinquire st.cfg s t r
       ({ st with file := some x.2.2 }, match x.1 with | some d => (if d.off = -1 then "fail" else toString d.off) | none => if x.2.1 then "unsupported" else "fail")
     | _, _ => (st, "bad-op")
-  | ["newref"], some s => let x := hnewref s; ({ st with file := some x.2 }, toString x.1)
+  | ["newref"], some s =>
+    let x := hnewref s
+    -- cross-run: the translated `Hnewref` on the model's `maxref` and the refs of its live descriptors ("<ret> <maxref>" compared, `ret` shown)
+    let g := GenRef.newref s.maxref (s.live.map (·.ref)) s!"{x.1} {x.2.maxref}"
+    ({ st with file := some x.2 }, if g == s!"{x.1} {x.2.maxref}" then toString x.1 else g)
   | ["tagnewref", t], some s => match t.toNat? with
-    | some t => let x := htagnewref st.cfg s t; ({ st with file := some x.2 }, toString x.1)
+    | some t =>
+      let x := htagnewref st.cfg s t
+      -- cross-run: the translated `Htagnewref` on the bit vector the model's tag tree holds for `BASETAG(t)`
+      ({ st with file := some x.2 }, if st.cfg.fixF7 then GenRef.tagnewref t (tget s.tags (baseTag t)) (toString x.1) else toString x.1)
     | none => (st, "bad-op")
   | ["cache", c], some s => ({ st with file := some (hcache s (c != "0")) }, "ok")
   | ["sync"], some s => ({ st with file := some (hsync s) }, "ok")
